@@ -12,7 +12,7 @@ import seedtest  # noqa: E402
 
 VERIF = seedtest.VERIF
 FIXES = [("10e9daa", ["C07"]), ("aab8232", ["C03", "C04"]), ("54cf653", ["C13"]), ("dcff2a1", ["C17"]), ("b60ed29", ["C17"]),
-         ("c240a2c", ["C09"]), ("f41eb8c", ["C05", "C15"]), ("636f27d", ["C11"]), ("f211346", ["C02"]), ("24b787d", ["C09"]), ("8c8093e", ["C15"]), ("29321c7", ["C12"]), ("cc07eac", ["C11"]), ("3001f79", ["C14"]), ("80e0b49", ["C14"])]
+         ("c240a2c", ["C09"]), ("f41eb8c", ["C05", "C15"]), ("636f27d", ["C11"]), ("f211346", ["C02"]), ("24b787d", ["C09"]), ("8c8093e", ["C15"]), ("29321c7", ["C12"]), ("cc07eac", ["C11"]), ("3001f79", ["C14"]), ("80e0b49", ["C14"]), ("bd60111", ["C11"])]
 
 
 def sh(cmd, cwd=VERIF, timeout=7200):
